@@ -1,4 +1,6 @@
 import SszModel.Text
+import SszModel.Serde
+import SszModel.BitMachine
 /-
   One request per line on stdin (tab separated), one answer per line on stdout.
 -/
@@ -79,6 +81,51 @@ def answer (fields : List String) : String :=
       resStr hexList r ++ " calls=" ++ hexList tr.calls ++ " hint=" ++
         (match tr.sizeHint with | some n => toString n | none => "-")
     | _, _, _ => "bad-request"
+  | ["bitops", kind, ops] =>
+    match parseKind kind with
+    | some k => runBitOps k ops
+    | none => "bad-request"
+  | ["bf_from", kind, hex] =>
+    match parseKind kind, fromHex hex with
+    | some k, some b => resStr bfStr (BF.fromBytes k b)
+    | _, _ => "bad-request"
+  | ["bf_into", kind, bits] =>
+    match parseKind kind, parseBits bits with
+    | some k, some l => resStr toHex ((BF.ofBits l).intoBytes k)
+    | _, _ => "bad-request"
+  | ["bf_withlen", hex, n] =>
+    match fromHex hex, n.toNat? with
+    | some b, some n => optStr bfStr (BF.fromBytesWithLen b n)
+    | _, _ => "bad-request"
+  | ["bf_new", kind, n] =>
+    match parseKind kind, n.toNat? with
+    | some k, some n => optStr bfStr (newOf k n)
+    | _, _ => "bad-request"
+  | ["bf_resize", n, m, bits] =>
+    match n.toNat?, m.toNat?, parseBits bits with
+    | some n, some m, some l => optStr bfStr (BF.resize n m (BF.ofBits l))
+    | _, _, _ => "bad-request"
+  | ["spec_bitlist_valid", n, hex] =>
+    match n.toNat?, fromHex hex with
+    | some n, some b => toString (Spec.bitlistValid n b)
+    | _, _ => "bad-request"
+  | ["spec_bitvector_valid", n, hex] =>
+    match n.toNat?, fromHex hex with
+    | some n, some b => toString (Spec.bitvectorValid n b)
+    | _, _ => "bad-request"
+  | ["serde_ser", kind, bits] =>
+    match parseKind kind, parseBits bits with
+    | some k, some l => resStr toHex (BF.serialize k (BF.ofBits l))
+    | _, _ => "bad-request"
+  | ["serde_de", kind, hex] =>
+    match parseKind kind, fromHex hex with
+    | some k, some s => resStr bfStr (BF.deserialize k s)
+    | _, _ => "bad-request"
+  | ["arb", kind, hex] =>
+    match parseKind kind, fromHex hex with
+    | some (.fixed n), some d => resStr bfStr (BF.arbitraryFixed n d)
+    | some (.variable n), some d => resStr bfStr (BF.arbitraryVariable n d)
+    | _, _ => "bad-request"
   | _ => "bad-request"
 
 partial def loop (h : IO.FS.Stream) (out : IO.FS.Stream) : IO Unit := do
